@@ -129,8 +129,10 @@ func Encrypt(dst io.Writer, recipients ...Recipient) (io.WriteCloser, error) {
 	}
 
 	verifhook.Point("age.encrypt")
+	verifhook.Emit("age.enc.begin", len(recipients))
 	fileKey := make([]byte, fileKeySize)
 	if _, err := rand.Read(fileKey); err != nil {
+		verifhook.Emit("age.enc.rand", 0)
 		return nil, err
 	}
 
@@ -138,6 +140,7 @@ func Encrypt(dst io.Writer, recipients ...Recipient) (io.WriteCloser, error) {
 	var labels []string
 	for i, r := range recipients {
 		stanzas, l, err := wrapWithLabels(r, fileKey)
+		verifhook.Emit("age.enc.wrap", verifhook.ErrClass(err, nil), len(l))
 		if err != nil {
 			return nil, fmt.Errorf("failed to wrap key for recipient #%d: %v", i, err)
 		}
@@ -145,6 +148,7 @@ func Encrypt(dst io.Writer, recipients ...Recipient) (io.WriteCloser, error) {
 		if i == 0 {
 			labels = l
 		} else if !slicesEqual(labels, l) {
+			verifhook.Emit("age.enc.incompatible")
 			return nil, fmt.Errorf("incompatible recipients")
 		}
 		for _, s := range stanzas {
@@ -152,21 +156,27 @@ func Encrypt(dst io.Writer, recipients ...Recipient) (io.WriteCloser, error) {
 		}
 	}
 	if mac, err := headerMAC(fileKey, hdr); err != nil {
+		verifhook.Emit("age.enc.mac", 0)
 		return nil, fmt.Errorf("failed to compute header MAC: %v", err)
 	} else {
 		hdr.MAC = mac
 	}
 	if err := hdr.Marshal(dst); err != nil {
+		verifhook.Emit("age.enc.header", 0, len(hdr.Recipients))
 		return nil, fmt.Errorf("failed to write header: %v", err)
 	}
+	verifhook.Emit("age.enc.header", 1, len(hdr.Recipients))
 
 	nonce := make([]byte, streamNonceSize)
 	if _, err := rand.Read(nonce); err != nil {
+		verifhook.Emit("age.enc.rand", 0)
 		return nil, err
 	}
 	if _, err := dst.Write(nonce); err != nil {
+		verifhook.Emit("age.enc.nonce", 0)
 		return nil, fmt.Errorf("failed to write nonce: %v", err)
 	}
+	verifhook.Emit("age.enc.nonce", 1)
 
 	return stream.NewWriter(streamKey(fileKey, nonce), dst)
 }
@@ -213,10 +223,13 @@ func Decrypt(src io.Reader, identities ...Identity) (io.Reader, error) {
 	}
 
 	verifhook.Point("age.decrypt")
+	verifhook.Emit("age.dec.begin", len(identities))
 	hdr, payload, err := format.Parse(src)
 	if err != nil {
+		verifhook.Emit("age.dec.header", 0, 0)
 		return nil, fmt.Errorf("failed to read header: %w", err)
 	}
+	verifhook.Emit("age.dec.header", 1, len(hdr.Recipients))
 
 	stanzas := make([]*Stanza, 0, len(hdr.Recipients))
 	for _, s := range hdr.Recipients {
@@ -226,6 +239,7 @@ func Decrypt(src io.Reader, identities ...Identity) (io.Reader, error) {
 	var fileKey []byte
 	for _, id := range identities {
 		fileKey, err = id.Unwrap(stanzas)
+		verifhook.Emit("age.dec.unwrap", verifhook.ErrClass(err, ErrIncorrectIdentity), len(fileKey))
 		if errors.Is(err, ErrIncorrectIdentity) {
 			errNoMatch.Errors = append(errNoMatch.Errors, err)
 			continue
@@ -237,19 +251,25 @@ func Decrypt(src io.Reader, identities ...Identity) (io.Reader, error) {
 		break
 	}
 	if fileKey == nil {
+		verifhook.Emit("age.dec.nomatch")
 		return nil, errNoMatch
 	}
 
 	if mac, err := headerMAC(fileKey, hdr); err != nil {
+		verifhook.Emit("age.dec.mac", 0)
 		return nil, fmt.Errorf("failed to compute header MAC: %v", err)
 	} else if !hmac.Equal(mac, hdr.MAC) {
+		verifhook.Emit("age.dec.mac", 0)
 		return nil, errors.New("bad header MAC")
 	}
+	verifhook.Emit("age.dec.mac", 1)
 
 	nonce := make([]byte, streamNonceSize)
 	if _, err := io.ReadFull(payload, nonce); err != nil {
+		verifhook.Emit("age.dec.nonce", 0)
 		return nil, fmt.Errorf("failed to read nonce: %w", err)
 	}
+	verifhook.Emit("age.dec.nonce", 1)
 
 	return stream.NewReader(streamKey(fileKey, nonce), payload)
 }
